@@ -101,11 +101,11 @@ func (ex *Exec) recordEncoded(st *State, arg ssa.Value) {
 	if !ok {
 		return
 	}
-	st.ghost["jsonEncTyp"] = Sc{iv.Typ}
-	st.ghost["jsonEncVal"] = Sc{iv.Val}
+	st.setGhost("jsonEncTyp", Sc{iv.Typ})
+	st.setGhost("jsonEncVal", Sc{iv.Val})
 	cnt := intLit(0)
 	if c, ok := st.ghost["jsonEncCount"].(Sc); ok {
 		cnt = c.T
 	}
-	st.ghost["jsonEncCount"] = Sc{tAdd(cnt, intLit(1))}
+	st.setGhost("jsonEncCount", Sc{tAdd(cnt, intLit(1))})
 }
